@@ -40,6 +40,17 @@ pub fn exec_raw<F: Family>(it: &mut Interp<F>, w: usize, name: &str, args: &[Str
                 Ok(Some(row)) => format!("ok row={}", row),
             })
         }
+        // res set <p> <v>   |   res view <desc> <epoch|->
+        ("res", 3) if args[0] == "set" => {
+            let p: usize = args[1].parse().ok()?;
+            let v: u64 = args[2].parse().ok()?;
+            if F::res_set(world, p, v) { Some("ok drops=@".into()) } else { None }
+        }
+        ("res", 3) if args[0] == "view" => {
+            let write: Option<u64> = args[2].parse().ok();
+            let vals = F::res_view(world, &args[1], write)?;
+            Some(format!("ok vals={} drops=@", vals.join(",")))
+        }
         _ => None,
     }
 }
